@@ -145,6 +145,9 @@ func (p *PackageProgress) stageStreamData() error {
 		}()
 		offset, dataLen := stream.GetDataOffsetAndLen()
 		pack.Offset = offset
+		if old, ok := pack.OffsetRecord[offset]; ok { // 重传的包只统计一次
+			pack.CurrentSize -= uint32(old)
+		}
 		pack.OffsetRecord[offset] = dataLen
 		pack.OffsetDataRecord[offset] = p.historyData[headLen : headLen+bodyLen]
 		pack.CurrentSize += uint32(bodyLen)
